@@ -21,6 +21,11 @@ SOURCES = [
     '#!/usr/bin/env python\n"module doc"\nlong_name = "abcabcabc" + "abcabcabc"\nprint(long_name, long_name, "abcabcabc", 5 * 1000)\n',
     'x=1\n',
     'def g(a):\n    value: str = "é" * 3\n    return value\n',
+    # the size rule at its boundary: minified text has fewer characters than the source has bytes, but more bytes
+    "x='é';True if 0in x else False",
+    "x='éé';y=0in x",
+    "x=1",
+    "t='ééééééééééééééééééééé';0in t",
 ]
 
 
